@@ -97,8 +97,16 @@ def live_spec_devs(check, vh, known, clauses):
 
 def report(check, fails, live, family="spec"):
     seen = set()
+    drift = 0
     for f in fails:
         dev = f.get("dev", "")
+        if dev == "model-drift":
+            # the code no longer follows the ORDER of phases / early-stop policy of SpecValidator.tla: that order is the present
+            # implementation, not a property - noted, never a violation (the property-level part of the trace is IsRunCore)
+            drift += 1
+            if drift == 1:
+                common.log("NOTE model drift: %s [base %s, edit: %s] %s" % (f["clause"], f["input"].get("base"), f["input"].get("edit"), str(f.get("got"))[:300]))
+            continue
         if dev == "combined":
             for n in live:
                 check.known(n, live[n]["text"])
@@ -112,3 +120,5 @@ def report(check, fails, live, family="spec"):
         seen.add(key)
         check.violation(dict(family=family, clause=f["clause"], want=f.get("want"), got=f.get("got"), input=f["input"]),
                         "%s [base %s, edit: %s]%s" % (f["clause"], f["input"].get("base"), f["input"].get("edit"), (" panic: " + f["input"]["panic"][:160]) if f["input"].get("panic") else ""))
+    if drift:
+        check.coverage["phase_traces_not_following_the_model"] = check.coverage.get("phase_traces_not_following_the_model", 0) + drift
